@@ -637,7 +637,7 @@ func (w *Worker) Configure(o Options) {
 		instrBudget: o.InstrBudget, traceEvery: o.TraceEvery,
 		seenFuncs: map[*ssa.Function]bool{}, reportedFunc: map[*ssa.Function]bool{}}
 	if ex.instrBudget == 0 {
-		ex.instrBudget = 20_000_000
+		ex.instrBudget = 4_000_000
 	}
 }
 
@@ -722,6 +722,10 @@ func (w *Worker) runPath(it WorkItem, seed uint64) {
 				case "pruned":
 					e.res.Pruned++
 				case "violated":
+				case "budget":
+					// possible non-termination: a violation candidate, confirmed natively under a watchdog
+					e.res.Obligations++
+					e.fail("hang", "termination: "+r.why, "", constBool(true), e.model)
 				default:
 					e.incon(r.kind + ": " + r.why)
 				}
